@@ -29,7 +29,7 @@ def oracle(cases, mlines, ilines):
 
 
 P = histprop.HistProp(
-    "C10", CONFIGS, typed=True, mix=MIX, corpus_cases=lambda: hist.deleted_target_cases("c10") + hist.wo_names_cases("c10"), quick_cases=12, thorough_cases=150, nops=(14, 28), known=c03.known, use_spec=True,
+    "C10", CONFIGS, typed=True, mix=MIX, corpus_cases=lambda: hist.deleted_target_cases("c10") + hist.wo_names_cases("c10") + hist.twin_overlay_cases("c10"), quick_cases=12, thorough_cases=150, nops=(14, 28), known=c03.known, use_spec=True,
     prepop_density=0.85, oracle=oracle, finish=finish, allow_big=False,
     rule=("removal-heavy typed histories through overlays of 2-3 layers with densely pre-populated lower layers: remove_file, "
           "remove_dir of emptied directories, remove_dir_all of nested subtrees, followed by unrelated operations and by "
